@@ -58,7 +58,7 @@ MANIFEST = {
             "with/without id, via parse / text / file / "
             "dict_to_stix2 / parse_observable / construction / MemoryStore.add, raw JSON values and texts, a worker with "
             "user-registered classes (forked per case; deep snapshot incl. Property-object state; history pairs: a failed call under "
-            "one flag combination, then another, against a pristine process), huge integers at id-contributing positions, deep nesting; quick samples 14 000 + 1 377, thorough ~193 000. "
+            "one flag combination, then another, against a pristine process), huge integers at id-contributing positions, deep nesting; quick samples 14 000 + 1 377, thorough ~222 000. "
             "ORACLE-only (model-independent): family membership of whatever escapes, deep registry snapshot unchanged by a "
             "failing call, store unchanged by a failing add, deep-nesting inputs. An implementation Ok where the structural "
             "model has no successful outcome is reported as a violation of 'returns a fully validated object' "
